@@ -293,6 +293,7 @@ def run(chk, replay=None):
             bins.append(("release", hb2))
     model = [re.sub(r"panic \w+", "panic", l) for l in core.run_lines(core.RUNNER, cases)] if have_model else None
     failing, mism, kinds, depths = [], [], {}, {}
+    compared = oracled = 0
     for c, meta in items:
         chk.count(c, meta["kind"].startswith("valid"))
         kinds[meta["kind"]] = kinds.get(meta["kind"], 0) + 1
@@ -302,16 +303,23 @@ def run(chk, replay=None):
     for prof, b in bins:
         impl = core.run_lines(b, cases)
         for (c, meta), o in zip(items, impl):
+            oracled += 1
             why = oracle(c, meta, o)
             if why:
                 failing.append((c, meta, "%s [%s build]" % (why, prof), o))
         if model is not None:
             for c, o, m in zip(cases, impl, model):
+                if not (c09.answered(o) and c09.answered(m)):
+                    if c09.answered(o) != c09.answered(m):
+                        mism.append((c, o, m, prof))
+                    continue
+                compared += 1
                 if c09.strip_impl(o) != m:
                     mism.append((c, o, m, prof))
     for c in (cases[0], cases[len(cases) // 2], cases[-1]):
         chk.sample(c[:300])
-    chk.cov["disagreements_checked"] = len(cases) * len(bins)
+    chk.cov["disagreements_checked"] = compared
+    chk.cov["oracle_checked"] = oracled
     chk.cov["model_impl_mismatches"] = len(mism)
     chk.cov["distribution"] = dict(kinds=kinds, nesting=depths)
     for c, meta, why, o in failing[:3]:
